@@ -139,6 +139,12 @@ def _set_with_op(container: Any, key: Any, op: str, value: Any) -> Any:
     key = _key_cast(container, key)
     value = copy.deepcopy(value)
 
+    if op in ('+=', '-=', '*=', '/='):
+        try:
+            container[key]
+        except LookupError:
+            raise ParserError(f'Key error \'{key}\'')
+
     if op == '+=':
         container[key] += value
     elif op == '-=':
